@@ -324,6 +324,20 @@ def _frontend_fallback(pid, r, tier, seed):
                         if (op, lk, rk) not in seen:
                             seen.add((op, lk, rk))
                             triples.append((op, lk, rk, fn))
+        for fn in fns:
+            if fn == 'Dec' or fn.endswith('::Dec'):
+                # the proc macro: real macro vs from_str on a literal grid (replay/dec_grid.py)
+                sys.path.insert(0, os.path.join(os.path.dirname(os.path.dirname(os.path.abspath(__file__))), 'replay'))
+                import dec_grid
+                w = dec_grid.run()
+                if w:
+                    d = _runner.Diag()
+                    d.message = 'extraction anchor lost / front end rejected the changed macro; the literal grid found a failing literal'
+                    d.fn = fn
+                    d.rendered = d.message
+                    key = {'fn': fn, 'kind': 'frontend-fallback', 'clause': None, 'expr': '', 'witness': w}
+                    _FALLBACK_DONE[r.unit] = (d, key)
+                    return (d, key)
         wide = ('d', 'i128', 'u64', 'i64', 'f64', 'f32', 's', None)
         triples.sort(key=lambda t: (0 if (t[1] in wide and t[2] in wide) else 1))
         if os.environ.get('VERIF_DEBUG'):
